@@ -1,0 +1,17 @@
+//go:build verif
+
+// Contract for the CLI's main function, checked by /verif/govc (comment-only; compiled only with -tags verif).
+// The exit status of the process is the ghost variable exitCode; a main that returns without ending the process exits 0.
+package main
+
+//@ prelude c18
+
+//@ func main()
+//@   verify [C04]
+//@   requires len(os.Args) >= 2
+//@   requires exitCode < 0 && !opaRejected && !opaEvaluated && !ldRejected
+//@   ensures [C18,C04:validate-failure-status] (os.Args[1] == "validate" && libReportErr(fileText(os.Args[2]), fileText(os.Args[3])) != nil) ==> exitCode != 0
+//@   ensures [C18:generate-failure-status] (os.Args[1] == "generate" && libRegoErr(fileText(os.Args[2])) != nil) ==> exitCode != 0
+//@   ensures [C18:normalize-failure-status] (os.Args[1] == "normalize" && libNormalizedErr(fileText(os.Args[2])) != nil) ==> exitCode != 0
+//@   ensures [C18:validate-stdout] (os.Args[1] == "validate" && exitCode == 0 && len(os.Args) == 4) ==> stdout == old(stdout) + libReport(fileText(os.Args[2]), fileText(os.Args[3])) + "\n"
+//@   ensures [C18:failure-is-silent] (exitCode != 0 && (os.Args[1] == "validate" || os.Args[1] == "generate" || os.Args[1] == "normalize")) ==> stdout == old(stdout)
